@@ -116,8 +116,16 @@ func (h *dlHost) NewStream(ctx context.Context, p peer.ID, pids ...protocol.ID) 
 	return &dlStream{Stream: s}, nil
 }
 
+// inboundDelay models transfer/processing time of an inbound stream. mocknet flushes buffered writes
+// immediately when a stream is closed, i.e. request/response round trips would otherwise take no
+// virtual time at all and a client retry loop would spin forever at one virtual instant.
+const inboundDelay = time.Millisecond
+
 func (h *dlHost) SetStreamHandler(pid protocol.ID, handler network.StreamHandler) {
-	h.Host.SetStreamHandler(pid, func(s network.Stream) { handler(&dlStream{Stream: s}) })
+	h.Host.SetStreamHandler(pid, func(s network.Stream) {
+		time.Sleep(inboundDelay)
+		handler(&dlStream{Stream: s})
+	})
 }
 
 func (h *dlHost) SetStreamHandlerMatch(pid protocol.ID, m func(protocol.ID) bool, handler network.StreamHandler) {
